@@ -205,7 +205,9 @@ Definition handshake (v : variant) (k : cfg) (c kind x : N) (isCtl : bool) (s : 
           let rejected := negb ok_kind && negb (kind =? 1) in
           if rejected then (s2, (true, 0))
           else if mem c (closed s2) || mem c (wfail s2) then (s2, (true, 0))   (* sendHandshakeResponse fails *)
-          else if isCtl && c_auth r' && (0 <? c_cid r') then
+          (* 58d6be9: only a handshake that ends with Success updates the registry (a challenge on an already
+             authenticated connection does not) *)
+          else if ok_kind && isCtl && c_auth r' && (0 <? c_cid r') then
             let X := c_cid r' in
             let s3 := match get X (idx s2) with
                       | Some o => if o =? c then s2 else registry_remove o s2
